@@ -302,6 +302,12 @@ func HostileExprs() []string {
 		`{__name__="foo"}`,
 		`{__name__=~"foo|bar"}`,
 		`{"foo"}`,
+		`up{"a(b"=~"foo"}`,
+		`up{"a[b"=~"foo.*", "c)d"!~"x|y"}`,
+		`sum by ("a)b", "c*") (up)`,
+		`{"metric(x", "l+"="v"}`,
+		`foo{"\\d"=~"1"} / on("a(b") group_left("c|d") bar`,
+		`{"日本"=~"x.*"}`,
 		`{"foo.bar", a="b"}`,
 		`foo{"a.b"="c"}`,
 		`sum by ("a.b") (foo)`,
@@ -365,7 +371,20 @@ func JoinShapeExpr(r *rand.Rand, o PQOpts) string {
 	arith := func() string { return g.pick([]string{"*", "/", "+", "-", ">", "<", "=="}) }
 	setop := func() string { return g.pick([]string{"and", "unless", "or"}) }
 	side := func() string { return g.pick([]string{"group_left", "group_right"}) }
-	switch r.Intn(8) {
+	switch r.Intn(9) {
+	case 8: // the many side lost a label that the group modifier copies back from a one side that is unique per on() label
+		perm := r.Perm(len(o.Labels))
+		if len(perm) < 3 {
+			return sel()
+		}
+		a, b, c := o.Labels[perm[0]], o.Labels[perm[1]], o.Labels[perm[2]]
+		lost := g.pick([]string{a, b, a + ", " + b})
+		one := fmt.Sprintf("max by(%s, %s, %s) (%s{%s=\"%s\", %s=\"%s\"})", c, a, b, g.pick(o.Metrics), a, g.pick(o.Values), b, g.pick(o.Values))
+		many := fmt.Sprintf("%s without(%s) (%s)", agg(), lost, g.pick(o.Metrics))
+		if r.Intn(2) == 0 {
+			return fmt.Sprintf("%s %s on(%s) group_left(%s, %s) %s", many, g.pick([]string{"*", "/", "+", "-"}), c, a, b, one)
+		}
+		return fmt.Sprintf("%s %s on(%s) group_right(%s, %s) %s", one, g.pick([]string{"*", "/", "+", "-"}), c, a, b, many)
 	case 0: // outer join on labels brought in (or not) by an inner group_left over a `without` aggregation
 		l1, l2 := lbl(), lbl()
 		return fmt.Sprintf("%s %s on(%s, %s) (%s without(%s) (%s) %s on(%s) %s(%s) %s)", sel(), setop(), l1, l2, agg(), l2, sel(), arith(), l1, side(), lbls(1+r.Intn(3)), sel())
